@@ -523,8 +523,8 @@ class PurityFilterStream(Stream):
         for name in sorted(env.filters):
             for var in PURITY_DATA:
                 for args in PURITY_ARGS:
-                    out.append({"tpl": "{{ " + var + " | " + name + (": " + ", ".join(args) if args else "") + " }}"
-                                       "{% assign r = " + var + " | " + name + (": " + ", ".join(args) if args else "") + " %}{{ r | size }}", "what": "filter:" + name})
+                    # applied once (an in-place edit applied twice could cancel out)
+                    out.append({"tpl": "{% assign r = " + var + " | " + name + (": " + ", ".join(args) if args else "") + " %}{{ r }}", "what": "filter:" + name})
         out += [{"tpl": t, "what": "tag"} for t in PURITY_TAGS]
         return out
 
